@@ -52,11 +52,25 @@ def symbolic_attractor_fallback(
     if node_data["skipped"]:
         # This is the same method that we applied to candidate states computation.
         initial_size = candidates.cardinality()
+        # Older skip nodes (and stubs) that overlap with this node; see the same
+        # condition in `compute_attractor_candidates`.
+        older_overlapping_spaces = [
+            s_data["space"]
+            for s, s_data in ((s, sd.node_data(s)) for s in sd.node_ids())
+            if s < node_id
+            and (s_data["skipped"] or not s_data["expanded"])
+            and intersect(node_space, s_data["space"]) is not None
+        ]
         for n in sd.node_ids():
             n_data = sd.node_data(n)
             if is_subspace(node_space, n_data["space"]):
                 continue
             if n_data["attractor_candidates"] == [] or n_data["attractor_seeds"] == []:
+                if any(
+                    is_subspace(s_space, n_data["space"])
+                    for s_space in older_overlapping_spaces
+                ):
+                    continue
                 # This will create a lot of duplicates, but it seems to be better than
                 # not doing it at all.
                 common_subspace = intersect(node_space, n_data["space"])
